@@ -2,5 +2,5 @@
 from checks import seqcheck
 
 def main(tier, seed, replay):
-    return seqcheck.main("C08", "Properties/C08.v", tier, seed, replay, scenarios=['tamper','tamper','startup','tamperfull'],
+    return seqcheck.main("C08", "Properties/C08.v", tier, seed, replay, scenarios=['tamper','tamper','startup','tamperfull','tamperissuer'],
                          own_prefixes=tuple("C01,C08,C06".split(",")), known_prefixes=("C06-stale-upload",) if "C08" == "C06" else ())
